@@ -1,3 +1,4 @@
 -- Root of the library: every vetted Props module (and through them Model/Proofs) is built by `lake build`.
 import IdenaModel.Props.C13
 import IdenaModel.Props.C06
+import IdenaModel.Props.C02
